@@ -332,7 +332,8 @@ fn theta_case(ctx: &mut Ctx, case: &Json) {
                 problems.push("decoded sketch claims to be ordered but is not".into());
             }
         }
-        if !empty && var.ser_ver >= 2 && c.seed_hash() != sh {
+        // (a serial version 1 image stores no seed hash: the sketch carries the hash of the seed it was read with)
+        if !empty && c.seed_hash() != sh {
             problems.push(format!("seed hash {:04x} want {:04x}", c.seed_hash(), sh));
         }
         let (lb, ub) = (c.lower_bound(NumStdDev::Two), c.upper_bound(NumStdDev::Two));
@@ -348,8 +349,8 @@ fn theta_case(ctx: &mut Ctx, case: &Json) {
                 Ok((back, _)) => {
                     let bs: BTreeSet<u64> = back.entries.iter().copied().collect();
                     let want_theta = if c.is_empty() { spec::theta::MAX_THETA } else { theta };
-                    if bs != set || back.theta != want_theta || back.empty != empty {
-                        ctx.violation("theta: re-serialized image encodes another state", format!("{} -> {}", what, form));
+                    if bs != set || back.theta != want_theta || back.empty != empty || (!empty && back.seed_hash != sh) {
+                        ctx.violation("theta: re-serialized image encodes another state", format!("{} -> {} (seed hash {:04x}, want {:04x})", what, form, back.seed_hash, sh));
                     }
                     if let Err(e) = spec::theta::check_semantics(&back) {
                         ctx.violation("theta: re-serialized image is not a valid image", format!("{} -> {}: {}", what, form, e));
